@@ -237,6 +237,11 @@ impl Searcher {
             }
         }
 
+        // An interrupted node has not examined all of its moves: do not cache its result
+        if self.timer.should_stop() {
+            return best_result;
+        }
+
         let bound = self.determine_bound(best_result.score, original_alpha, beta);
         self.store_in_transposition_table(board, &best_result, depth, bound);
 
